@@ -108,7 +108,8 @@ class LeanLock:
         self.f.close()
 
 
-EXTRACTORS = {'extract_tables.py': 'Tables.lean', 'extract_optable.py': 'OpTable.lean'}
+EXTRACTORS = {'extract_tables.py': 'Tables.lean', 'extract_optable.py': 'OpTable.lean',
+              'extract_paramtable.py': 'ParamTable.lean'}
 
 
 def extract_tables():
